@@ -862,17 +862,23 @@ class TrueTypeFont:
                     Tuple[int, ...],
                     struct.unpack(">%dH" % segcount, fp.read(2 * segcount)),
                 )
-                for ec, sc, idd, idr in zip(ecs, scs, idds, idrs):
+                for i, (ec, sc, idd, idr) in enumerate(zip(ecs, scs, idds, idrs)):
                     if idr:
-                        fp.seek(pos + idr)
+                        # idRangeOffset counts from its own position in the
+                        # idRangeOffset array, not from the start of the array.
+                        fp.seek(pos + 2 * i + idr)
                         for c in range(sc, ec + 1):
                             b = cast(Tuple[int], struct.unpack(">H", fp.read(2)))[0]
-                            char2gid[c] = (b + idd) & 0xFFFF
+                            # 0 is the missing glyph; idDelta applies to real
+                            # glyph indices only.
+                            char2gid[c] = (b + idd) & 0xFFFF if b else 0
                     else:
                         for c in range(sc, ec + 1):
                             char2gid[c] = (c + idd) & 0xFFFF
             else:
-                assert False, str(("Unhandled", fmttype))
+                # Other formats (6, 12, ...) are not supported: skip the
+                # subtable and use what the other subtables define.
+                log.debug("unsupported cmap subtable format: %r", fmttype)
         if not char2gid:
             raise TrueTypeFont.CMapNotFound
         # create unicode map
